@@ -104,4 +104,20 @@ PROPS = {
                    'with next_ts (core-relations rebuild.rs; assumed); Database contracts as for C04; merge-unit assumptions as for C05.',
         assumptions=['engine-level re-timestamping during rebuild and the join engine honouring the constraints are assumed'],
     ),
+    'C16': dict(
+        units=['disp'],
+        kani_quick=[],
+        kani_thorough=[],
+        design_ref='DESIGN.md section 4 (U-DISP, U-SWT, U-OFF) and section 5 C16',
+        level_text='Unbounded proof (Verus) that every operation of the real DisplacedTable (core-relations/src/uf/mod.rs: insert_impl, expand, '
+                   'timestamp_bounds, eval, eval_constraint, fast_subset, get_row_column, len, all, version, updates_since, clear) keeps the '
+                   'representation invariant (lookup_table is exactly the index of displaced, rows sorted by timestamp, displaced ids non-canonical, '
+                   'union-find well-formed) and agrees with the abstract view: a row is appended exactly when two classes are merged, fast_subset returns '
+                   'EXACTLY the rows satisfying the constraint, timestamp range search returns exactly the rows with that timestamp. Built on the verified '
+                   'UnionFind (same generated file, callers checked against its contracts). SortedWritesTable row store and hash shards are NOT covered.',
+        level_note='Trusted: HashMap as a finite map (A-hash), [T]::binary_search_by_key specification for a total key closure (A-std), NumericId axioms, '
+                   'UnionFind::reset (iterator adapters; assumed), OffsetRange::new debug_assert taken as precondition; merge()/get_row() (SegQueue, pool closures) not covered. '
+                   'Trait impl `impl Table for DisplacedTable` emitted as inherent impl (R-INHERENT).',
+        assumptions=['SortedWritesTable, Rows, ShardedHashTable, rehash, remove_stale: assumed (unsafe, hashbrown)'],
+    ),
 }
